@@ -57,10 +57,32 @@ func (s KeyState) Step(c byte) (KeyState, bool) {
 	return s, false
 }
 
+// ExtraKeys are keys the tree under test lists as supported in addition to
+// the 28 of the property statement (read from `crd info key list`).
+var ExtraKeys []string
+
+// AllKeys is the set of supported keys: the 28 of the statement plus
+// whatever else the tree lists.
+func AllKeys() []string {
+	out := append([]string{}, SupportedKeys...)
+	for _, k := range ExtraKeys {
+		dup := false
+		for _, x := range out {
+			if x == k {
+				dup = true
+			}
+		}
+		if !dup {
+			out = append(out, k)
+		}
+	}
+	return out
+}
+
 // Spellings lists every supported spelling of the state, sorted.
 func (s KeyState) Spellings() []string {
 	var out []string
-	for _, k := range SupportedKeys {
+	for _, k := range AllKeys() {
 		if ks, ok := KeyStateOf(k); ok && ks == s {
 			out = append(out, k)
 		}
